@@ -1036,7 +1036,14 @@ func FindSequenceOnDiskPad(pattern string, padStyle PadStyle, opts ...FileOption
 		return nil, nil
 	}
 
-	seqs, err := findSequencesOnDisk(fs.Dirname(), &findSeqOptions{FileOptions: optsCopy, SeqTemplate: fs})
+	dir := fs.Dirname()
+	if dir == "" {
+		// a pattern without a directory component
+		// refers to the current directory
+		dir = "."
+	}
+
+	seqs, err := findSequencesOnDisk(dir, &findSeqOptions{FileOptions: optsCopy, SeqTemplate: fs})
 	if err != nil {
 		return nil, fmt.Errorf("failed to find %q: %s", pattern, err.Error())
 	}
